@@ -33,8 +33,8 @@ ASSUMPTIONS = ['PBKDF2 iteration counts above 4096 are refused by the fuzz harne
 STALL_S = 900
 SHIM_T13 = True
 
-TARGETS = {1: 'asn1', 2: 'cert', 3: 'exts', 4: 'crl-req', 5: 'cms', 6: 'keys', 7: 'sig-ct', 8: 'text', 9: 'tls', 10: 'sm9'}
-MAXLEN = {1: 400, 2: 4096, 3: 2048, 4: 4096, 5: 8192, 6: 2048, 7: 1024, 8: 6000, 9: 18437, 10: 600}
+TARGETS = {1: 'asn1', 2: 'cert', 3: 'exts', 4: 'crl-req', 5: 'cms', 6: 'keys', 7: 'sig-ct', 8: 'text', 9: 'tls', 10: 'sm9', 11: 'tls-auth'}
+MAXLEN = {1: 400, 2: 4096, 3: 2048, 4: 4096, 5: 8192, 6: 2048, 7: 1024, 8: 6000, 9: 18437, 10: 600, 11: 16384 + 300}
 
 
 _SM2_P = 0xFFFFFFFEFFFFFFFFFFFFFFFFFFFFFFFFFFFFFFFF00000000FFFFFFFFFFFFFFFF
@@ -256,6 +256,33 @@ def u_seeds(ctx, u):
         for i, d, rec in res['proxy'].records:
             put(9, rec)
         T.close_pair(res)
+    # 11 records under a valid tag / MAC (the harness protects the input itself): selector octet + inner plaintext.  The edge
+    # cases go to struct-11 so that they are replayed under every sanitizer, a few of them seed the fuzzer
+    os.makedirs(os.path.join(root, 'struct-11'), exist_ok=True)
+    n11 = 0
+    edge = []
+    for seqsel in (0, 4, 188):
+        for inner in [b''] + [bytes(n) for n in (1, 2, 15, 16, 17, 40, 255, 256, 4096, 16384, 16385, 16384 + 256)] + \
+                [b'hello' + bytes([t]) + bytes(pad) for t in (0, 1, 20, 21, 22, 23, 24, 25, 99, 255) for pad in (0, 1, 17, 255)] + \
+                [bytes([t]) + bytes(pad) for t in (20, 21, 22, 23, 24) for pad in (0, 1, 16, 300)] + \
+                [rng.randbytes(16384) + b'\x17', rng.randbytes(16385) + b'\x17', rng.randbytes(16384) + b'\x17' + bytes(255)]:
+            edge.append(bytes([seqsel]) + inner)
+    for last in list(range(0, 70)) + [127, 128, 200, 254, 255]:
+        for nblk in (1, 2, 3, 4, 5, 20):
+            body = rng.randbytes(16 * nblk - 1 - min(last, 16 * nblk - 1)) + bytes([last]) * min(last, 16 * nblk - 1)
+            edge.append(bytes([1]) + body + bytes([last]))                      # raw CBC plaintext ending in `last`
+    for content in (0, 1, 15, 16, 31, 32, 100, 16383, 16384):
+        for padn in (0, 1, 15, 16, 17, 63):
+            edge.append(bytes([3]) + rng.randbytes(content) + (bytes([padn]) * padn if padn else b''))
+            edge.append(bytes([7]) + rng.randbytes(content) + (rng.randbytes(padn - 1) + bytes([padn]) if padn else b''))
+    for e in edge:
+        n11 += 1
+        with open(os.path.join(root, 'struct-11', 'm%05d' % n11), 'wb') as f:
+            f.write(e)
+    for e in edge[::9]:
+        if len(e) < 2000:
+            put(11, e)
+    ctx.stat('authenticated_record_edge_cases', n11)
     # structured mutants: the valid DER seeds with every field resized and every enclosing length recomputed
     # (vf.ref.der.resize_mutants) - what byte-level mutation practically never produces
     from ..ref import der as D
